@@ -80,6 +80,8 @@ message Rule { optional string name = 1; repeated int32 codes = 2; optional Rule
 extend google.protobuf.MessageOptions { optional Rule rule = 50001; }
 extend google.protobuf.FieldOptions { optional string note = 50002; repeated string tags = 50003; }
 extend google.protobuf.FileOptions { optional string owner = 50004; }
+// an extension declared three messages deep, below messages that declare none themselves
+message Outer { message Middle { message Deep { extend google.protobuf.FieldOptions { optional string deep_note = 50010; } } } }
 `,
 	"vendor/google/protobuf/timestamp.proto": `syntax = "proto3";
 package google.protobuf;
@@ -108,7 +110,7 @@ message A {
   google.protobuf.Timestamp at = 2;
   google.protobuf.TimestampExtra extra = 3;
   acme.v1.sub.C c = 4;
-  string AlsoBad = 5;
+  string AlsoBad = 5 [(opts.Outer.Middle.Deep.deep_note) = "deep"];
   map<string, int64> counts = 6;
   oneof choice { string left = 7; int32 right = 8; }
   google.protobuf.Duration wait = 9;
@@ -145,7 +147,7 @@ func has(l []string, x string) bool {
 func writeTree(root string, prev bool) error {
 	for rel, content := range files {
 		if prev && rel == "proto/acme/v1/a.proto" {
-			content = strings.Replace(content, "  string AlsoBad = 5;\n", "  string AlsoBad = 5;\n  string gone = 15;\n", 1)
+			content = strings.Replace(content, "  map<string, int64> counts = 6;\n", "  map<string, int64> counts = 6;\n  string gone = 15;\n", 1)
 		}
 		p := filepath.Join(root, filepath.FromSlash(rel))
 		if err := os.MkdirAll(filepath.Dir(p), 0o755); err != nil {
@@ -573,7 +575,8 @@ func run(in []byte) (*reg.Result, error) {
 	var obsMu sync.Mutex
 	obsRef := map[obsKey]string{}
 	obsName := func(o obsRec) string {
-		return o.Op + " path=" + strings.Join(o.Paths[0], "+") + " exclude=" + strings.Join(o.Paths[1], "+")
+		// (build-reversed shares the reference of build: the order of --path values must not matter)
+		return strings.TrimSuffix(o.Op, "-reversed") + " path=" + strings.Join(o.Paths[0], "+") + " exclude=" + strings.Join(o.Paths[1], "+")
 	}
 	observe := func(a artifact, inputArg, prefix string, o obsRec, tourDir string, n int) (string, error) {
 		var args []string
@@ -583,11 +586,17 @@ func run(in []byte) (*reg.Result, error) {
 			args = []string{"lint", inputArg}
 		case "breaking":
 			args = []string{"breaking", inputArg, "--against", filepath.Join(w.root, "prev.binpb")}
-		case "build":
+		case "build", "build-reversed":
 			outFile = filepath.Join(tourDir, fmt.Sprintf("obs%03d.binpb", n))
 			args = []string{"build", inputArg, "-o", outFile}
 		}
-		for _, p := range o.Paths[0] {
+		paths := append([]string{}, o.Paths[0]...)
+		sort.Strings(paths)
+		if o.Op == "build-reversed" {
+			// longest first: a path is given before the path that contains it
+			sort.Sort(sort.Reverse(sort.StringSlice(paths)))
+		}
+		for _, p := range paths {
 			args = append(args, "--path", prefix+p)
 		}
 		for _, p := range o.Paths[1] {
@@ -598,7 +607,7 @@ func run(in []byte) (*reg.Result, error) {
 			return "", err
 		}
 		result := fmt.Sprintf("exit=%d\n%s%s", code, normalize(stdout), normalize(stderr))
-		if o.Op == "build" && code == 0 {
+		if strings.HasPrefix(o.Op, "build") && code == 0 {
 			img, err := decode(outFile, "binpb", "none", w.types[a.Sel])
 			_ = os.Remove(outFile)
 			if err != nil {
